@@ -139,14 +139,18 @@ func (p *Prog) watchRoles() *watchRoles {
 	}
 	// cache add: call in the sequencer whose argument is the proto.Event built there
 	evType := p.namedType("github.com/kubewharf/kubebrain-client/api/v2rpc", "Event")
-	for _, c := range callsIn(w.sequencer) {
+	for _, ch := range r.SeqRegion.chainsIn(p, func(ins ssa.Instruction) bool {
+		c, ok := ins.(ssa.CallInstruction)
+		if !ok {
+			return false
+		}
 		sc := c.Common().StaticCallee()
 		if sc == nil || sc.Signature.Recv() == nil || len(c.Common().Args) != 2 || sc.Signature.Results().Len() != 0 {
-			continue
+			return false
 		}
-		if types.Identical(c.Common().Args[1].Type(), types.NewPointer(evType)) {
-			w.cacheAdd = sc
-		}
+		return types.Identical(c.Common().Args[1].Type(), types.NewPointer(evType))
+	}) {
+		w.cacheAdd = ch.target.(ssa.CallInstruction).Common().StaticCallee()
 	}
 	if w.cacheAdd == nil {
 		brokenf("watch roles: cache insert of the sequencer not found")
@@ -583,7 +587,16 @@ func checkC05(p *Prog, res *Result, tier string) {
 			for _, x := range allCellValuesOpt(p, v, false) {
 				switch y := x.(type) {
 				case *ssa.Parameter:
-					return true
+					// a parameter is as foreign as the arguments it is called with; unknown callers count as foreign
+					acts := p.paramActuals(y)
+					if len(acts) == 0 || p.addressTaken(y.Parent()) {
+						return true
+					}
+					for _, a := range acts {
+						if foreign(a, d+1, seen) {
+							return true
+						}
+					}
 				case *ssa.Slice:
 					if foreign(y.X, d+1, seen) {
 						return true
@@ -605,6 +618,18 @@ func checkC05(p *Prog, res *Result, tier string) {
 				case *ssa.Call:
 					if bi, ok := y.Common().Value.(*ssa.Builtin); ok && bi.Name() == "append" && foreign(y.Common().Args[0], d+1, seen) {
 						return true
+					}
+					// the result of a repo helper (a filter that re-slices its argument): whatever it returns
+					if sc := y.Common().StaticCallee(); sc != nil && sc.Blocks != nil && sc.Pkg == bp {
+						for _, b := range sc.Blocks {
+							if ret, ok := b.Instrs[len(b.Instrs)-1].(*ssa.Return); ok {
+								for _, rv := range ret.Results {
+									if isEvSlice(rv.Type()) && foreign(rv, d+1, seen) {
+										return true
+									}
+								}
+							}
+						}
 					}
 				}
 			}
@@ -682,55 +707,54 @@ func reachesFunc(p *Prog, from, target *ssa.Function, depth int) bool {
 
 func checkCacheBeforeBroadcast(p *Prog, r *Roles, w *watchRoles, res *Result) {
 	seq := w.sequencer
+	rg := r.SeqRegion
 	evType := p.namedType("github.com/kubewharf/kubebrain-client/api/v2rpc", "Event")
 	// the event placed into the outgoing batch: the *proto.Event stored into an element of the batch slice
-	// (built in place or by a helper)
+	// (built in place or by a helper), in the sequencer goroutine's function or a helper it calls
 	var batchStore *ssa.Store
+	var bsFrame *frame
 	var ev ssa.Value
-	for _, b := range seq.Blocks {
-		for _, ins := range b.Instrs {
-			st, ok := ins.(*ssa.Store)
-			if !ok {
-				continue
-			}
-			if _, isIdx := st.Addr.(*ssa.IndexAddr); isIdx && types.Identical(st.Val.Type(), types.NewPointer(evType)) {
-				batchStore, ev = st, resolve(st.Val)
-			}
+	for _, ch := range rg.chainsIn(p, func(ins ssa.Instruction) bool {
+		st, ok := ins.(*ssa.Store)
+		if !ok {
+			return false
 		}
+		_, isIdx := st.Addr.(*ssa.IndexAddr)
+		return isIdx && types.Identical(st.Val.Type(), types.NewPointer(evType))
+	}) {
+		batchStore = ch.target.(*ssa.Store)
+		bsFrame = frameOfChain(ch)
+		ev = rg.origin(batchStore.Val, bsFrame)
 	}
 	if batchStore == nil {
 		res.und("C05-R2", funcName(seq), "-", "store of an event into the outgoing batch not found")
 		return
 	}
-	isAdd := func(ins ssa.Instruction) bool {
+	isAdd := func(ins ssa.Instruction, fr *frame) bool {
 		c, ok := ins.(*ssa.Call)
-		return ok && c.Common().StaticCallee() == w.cacheAdd && resolve(c.Common().Args[1]) == ev
+		return ok && c.Common().StaticCallee() == w.cacheAdd && rg.origin(c.Common().Args[1], fr) == ev
 	}
 	// from the construction of the event: the cache insert must come before any broadcast send / next slot load
+	se, _ := sequencerEvent(p, r)
 	var loadCall ssa.Instruction
-	for _, c := range callsIn(seq) {
-		sc := c.Common().StaticCallee()
-		if sc != nil && sc.Name() == "Load" && sc.Signature.Recv() != nil && isNamed(sc.Signature.Recv().Type(), "sync/atomic", "Value") {
-			loadCall = c.(ssa.Instruction)
-		}
+	if se != nil {
+		loadCall = se.load.(ssa.Instruction)
 	}
 	sp := posOf(batchStore)
-	// search both from the store (insert after store) and accept insert before the store in the same straight line
+	// accept an insert that precedes the store in the same function (insert, then place in the batch)
 	insertedBefore := false
-	if refs := ev.Referrers(); refs != nil {
-		for _, ref := range *refs {
-			if isAdd(ref) && instrDominates(ref, batchStore) {
-				insertedBefore = true
-			}
+	for _, c := range callsIn(batchStore.Parent()) {
+		if ci, ok := c.(*ssa.Call); ok && isAdd(ci, bsFrame) && instrDominates(ci, batchStore) {
+			insertedBefore = true
 		}
 	}
 	construct := funcName(seq) + ": cache insert before broadcast"
 	if insertedBefore {
 		res.ok("C05-R2", construct, p.pos(batchStore.Pos()), "the cache insert dominates the store into the outgoing batch")
 	} else {
-		ins, path := searchFrom(sp.b, sp.i+1, searchOpts{
+		ins, fr, path := rg.search(bsFrame, sp.b, sp.i+1, superOpts{
 			stop: isAdd,
-			bad: func(ins ssa.Instruction) bool {
+			bad: func(ins ssa.Instruction, _ *frame) bool {
 				if _, ok := ins.(*ssa.Send); ok {
 					return true
 				}
@@ -738,7 +762,7 @@ func checkCacheBeforeBroadcast(p *Prog, r *Roles, w *watchRoles, res *Result) {
 			},
 		})
 		if ins != nil {
-			res.bad("C05-R2", construct, p.pos(ins.Pos()), "an event placed in the outgoing batch can be broadcast (or the next slot consumed) before it is inserted into the event cache: a watcher registering in between gets it from neither side: "+blockPath(p, path))
+			res.bad("C05-R2", construct, p.pos(ins.Pos()), "an event placed in the outgoing batch can be broadcast (or the next slot consumed) before it is inserted into the event cache: a watcher registering in between gets it from neither side (in "+fr.String()+path+")")
 		} else {
 			res.ok("C05-R2", construct, p.pos(batchStore.Pos()), "every path from batching the event to a broadcast send or the next slot passes the cache insert")
 		}
@@ -749,7 +773,7 @@ func checkCacheBeforeBroadcast(p *Prog, r *Roles, w *watchRoles, res *Result) {
 	okValid := false
 	for _, cf := range dominatingFacts(batchStore.Block()) {
 		// the tested value may be the result of a helper of the sequencer that returns slot.Valid
-		if ld, ok := r.SeqRegion.origin(cf.Raw, &frame{fn: seq}).(*ssa.UnOp); ok && cf.Want {
+		if ld, ok := r.SeqRegion.origin(cf.Raw, bsFrame).(*ssa.UnOp); ok && cf.Want {
 			if fa, ok := ld.X.(*ssa.FieldAddr); ok && fieldOf(fa) == validField {
 				okValid = true
 			}
